@@ -13,6 +13,8 @@ import (
 	"math"
 	"strconv"
 	"strings"
+	"sync/atomic"
+	"time"
 
 	"github.com/prometheus/prometheus/model/histogram"
 	"github.com/prometheus/prometheus/model/labels"
@@ -284,3 +286,44 @@ func fnArg(f string) string {
 }
 
 func pickInt(r *hlib.Rand, xs ...int) int { return xs[r.Intn(len(xs))] }
+
+// guarded runs one Exec body with a deadline: the code under test loops on its own iterators
+// (Seek iterates Next), so a broken seek target spins forever.  The first op that exceeds the
+// deadline is reported as a violation of class "hang"; the spinning goroutine cannot be stopped,
+// so every later op of the run is answered "hang-skipped" without being executed.
+var hungOnce atomic.Bool
+
+func guarded(c *hlib.Ctx, f func() string) string {
+	if hungOnce.Load() {
+		return "hang-skipped"
+	}
+	res := make(chan string, 1)
+	pan := make(chan any, 1)
+	go func() {
+		defer func() {
+			if r := recover(); r != nil {
+				pan <- r
+			}
+		}()
+		res <- f()
+	}()
+	select {
+	case s := <-res:
+		return s
+	case r := <-pan:
+		panic(r)
+	case <-time.After(20 * time.Second):
+		hungOnce.Store(true)
+		c.Violation("hang", "the call sequence did not return within 20 s")
+		return "hang"
+	}
+}
+
+// budget is c.N with a bounded search tier: the search budget of ./check (spent when a proof or
+// the correspondence is broken and no failing input is known yet) is three times the quick one.
+func budget(c *hlib.Ctx, quick, thorough int) int {
+	if c.Tier == "search" {
+		return 3 * quick
+	}
+	return c.N(quick, thorough)
+}
